@@ -104,3 +104,90 @@ Proof.
   - destruct (growth_limit t); simpl in Hg; try contradiction. simpl. exact I.
   - rewrite Hg. simpl. exact Hb.
 Qed.
+
+(* ---- the per-track epilogues and flushes keep the class *)
+Ltac tk_field_tac :=
+  unfold tk_ok, fin_or_pinf in *; simpl in *;
+  repeat match goal with
+         | |- context [if ?c then _ else _] => destruct c; simpl
+         end; intuition.
+
+Lemma base_epilogue_ok t : tk_ok t ->
+  tk_ok (set_incurred (if ltb (base_planned t) (incurred t) then set_base_planned t (incurred t) else t) zero).
+Proof. intro Ht. destruct t. tk_field_tac; lra. Qed.
+Lemma limit_epilogue_ok t : tk_ok t ->
+  tk_ok (set_incurred (if ltb (limit_planned t) (incurred t) then set_limit_planned t (incurred t) else t) zero).
+Proof. intro Ht. destruct t. tk_field_tac; lra. Qed.
+
+(* (b) distribute_item_space_to_base_size_inner keeps the class *)
+Lemma base_inner_ok (sp : Q) (tracks : list (track XQ)) (aff : track XQ -> bool) (p lim : track XQ -> XQ) (ct : contribution_type) :
+  inc_inv aff -> inc_inv p -> inc_inv lim -> Forall (dist_ok p base_size lim) tracks -> Forall tk_ok tracks ->
+  Forall tk_ok (distribute_item_space_to_base_size_inner (Fin sp) tracks aff p lim ct).
+Proof.
+  intros Haff Hp Hlim Hok Htk. unfold distribute_item_space_to_base_size_inner. xq0.
+  destruct (x_eqb (Fin sp) (Fin 0) || negb (existsb aff tracks)); [exact Htk|].
+  destruct (extra_space_fin sp (map base_size tracks)) as [c Ec].
+  { apply Forall_map. eapply Forall_impl; [|exact Hok]. intros t [Hb _]. exact Hb. }
+  rewrite Ec.
+  destruct (dist_fuel_suffices aff p base_size lim Haff Hp inc_inv_base_size Hlim c tracks Hok) as [_ [_ [R3 [R4 _]]]].
+  cbv zeta in *.
+  pose proof (dloop_rest aff p base_size lim (distribute_fuel tracks) (Fin c) tracks) as Hr1.
+  unfold distribute_space_up_to_limits in *.
+  destruct (distribute_loop aff p base_size lim (distribute_fuel tracks) (Fin c) tracks) as [extra1 ts1]. cbn [fst snd] in *.
+  assert (Htk1 : Forall tk_ok ts1) by (eapply loop_result_ok; eauto).
+  assert (Hfin : Forall tk_ok (if x_ltb base_threshold extra1 then
+            snd (distribute_loop (base_filter2 ct aff ts1) p base_size lim (distribute_fuel ts1) extra1 ts1) else ts1)).
+  { destruct (x_ltb base_threshold extra1); [|exact Htk1].
+    destruct (fin_inv _ R4) as [c1 Ec1]. subst extra1.
+    destruct (dist_fuel_suffices (base_filter2 ct aff ts1) p base_size lim (inc_inv_filter2 ct aff ts1) Hp inc_inv_base_size Hlim c1 ts1 R3)
+      as [_ [_ [S3 _]]]. cbv zeta in S3. unfold distribute_space_up_to_limits in S3.
+    eapply loop_result_ok; [apply dloop_rest|exact Htk1|exact S3]. }
+  unfold base_filter2, base_filter1 in Hfin.
+  apply Forall_map. eapply Forall_impl; [|exact Hfin]. intros t Ht. apply base_epilogue_ok. exact Ht.
+Qed.
+
+Lemma base_size_ok (is_flex uff : bool) (sp : Q) (tracks : list (track XQ)) (aff : track XQ -> bool) (lim : track XQ -> XQ)
+      (ct : contribution_type) :
+  inc_inv aff -> inc_inv lim -> (forall t, tk_ok t -> fin_or_pinf (lim t)) -> Forall tk_ok tracks ->
+  (forall e1 e2, base_size_fuelled e1 e2 is_flex uff (Fin sp) tracks aff lim ct
+                 = distribute_item_space_to_base_size is_flex uff (Fin sp) tracks aff lim ct) /\
+  Forall tk_ok (distribute_item_space_to_base_size is_flex uff (Fin sp) tracks aff lim ct).
+Proof.
+  intros Haff Hlim Hl Htk. pose proof (tk_dist_base is_flex uff lim tracks Hl Htk) as Hok.
+  split; [apply base_size_fuel_suffices; assumption|].
+  unfold distribute_item_space_to_base_size, base_size_proportion in *.
+  destruct is_flex; [destruct uff|]; cbn [andb] in Hok.
+  - apply base_inner_ok; auto using inc_inv_flex_factor, inc_inv_andb, inc_inv_is_flexible.
+  - apply (base_inner_ok sp tracks _ (fun _ => Fin 1) lim ct); auto using inc_inv_andb, inc_inv_is_flexible. apply inc_inv_const.
+  - apply (base_inner_ok sp tracks _ (fun _ => Fin 1) lim ct); auto. apply inc_inv_const.
+Qed.
+
+(* (c) distribute_item_space_to_growth_limit keeps the class *)
+Lemma growth_limit_ok (inner : option XQ) (sp : Q) (tracks : list (track XQ)) (aff : track XQ -> bool) :
+  inner_ok inner -> inc_inv aff -> Forall tk_ok tracks ->
+  (forall e, growth_limit_fuelled inner e (Fin sp) tracks aff = distribute_item_space_to_growth_limit inner (Fin sp) tracks aff) /\
+  Forall tk_ok (distribute_item_space_to_growth_limit inner (Fin sp) tracks aff).
+Proof.
+  intros Hin Haff Htk. pose proof (tk_dist_limit inner tracks Hin Htk) as Hok.
+  split; [apply growth_limit_fuel_suffices; assumption|].
+  unfold distribute_item_space_to_growth_limit. xq0.
+  destruct (x_eqb (Fin sp) (Fin 0) || Nat.eqb (length (filter aff tracks)) 0); [exact Htk|].
+  destruct (extra_space_fin sp (map limit_or_base tracks)) as [c Ec].
+  { apply Forall_map. eapply Forall_impl; [|exact Hok]. intros t [Hb _]. exact Hb. }
+  rewrite Ec.
+  apply Forall_map.
+  match goal with |- Forall _ ?l => assert (Hfin : Forall (fun t => tk_ok (rest t) /\ finite (incurred t)) l) end.
+  { destruct (length (filter _ tracks)) as [|k] eqn:En.
+    - destruct (dist_fuel_suffices aff (fun _ => Fin 1) limit_or_base (fit_content_limit inner) Haff (inc_inv_const (Fin 1))
+                  inc_inv_limit_or_base (inc_inv_fit_content_limit inner) c tracks Hok) as [_ [_ [R3 _]]].
+      cbv zeta in R3. unfold distribute_space_up_to_limits in *.
+      assert (Hx : Forall tk_ok (snd (distribute_loop aff (fun _ => Fin 1) limit_or_base (fit_content_limit inner) (distribute_fuel tracks) (Fin c) tracks))).
+      { eapply loop_result_ok; [apply dloop_rest|exact Htk|exact R3]. }
+      eapply Forall_impl; [|exact Hx]. intros t Ht. split; [apply tk_ok_rest; exact Ht|]. destruct Ht as [_ [_ [Hi _]]]. exact Hi.
+    - apply Forall_map. eapply Forall_impl; [|exact Htk]. intros t Ht.
+      match goal with |- context [if ?g then _ else _] => destruct g end.
+      + split; [apply tk_ok_rest in Ht; destruct t; exact Ht|].
+        cbn [incurred set_incurred]. unfold x_div. unfold q_sign. cbn [inject_Z Qnum Z.of_nat]. simpl. exact I.
+      + split; [apply tk_ok_rest; exact Ht|]. destruct Ht as [_ [_ [Hi _]]]. exact Hi. }
+  eapply Forall_impl; [|exact Hfin]. intros t [Ht Hi]. destruct t. tk_field_tac; lra.
+Qed.
